@@ -573,8 +573,16 @@ func c063(c *Ctx, r *Report, join *Fn, errVars map[types.Object]bool) {
 		if isRecord(n) {
 			f["recorded"] = true
 		}
+		if f["recorded"] || (f["passed|CanAppend"] && f["passed|Verify"]) {
+			f["resolved"] = true
+		}
 	}
 	vf.Edge = func(cond ast.Expr, taken bool, f Facts) {
+		defer func() {
+			if f["recorded"] || (f["passed|CanAppend"] && f["passed|Verify"]) {
+				f["resolved"] = true
+			}
+		}()
 		for _, a := range splitCond(cond, taken) {
 			if x, isNil, ok := nilTest(a); ok {
 				if id, ok := ast.Unparen(x).(*ast.Ident); ok {
@@ -608,6 +616,10 @@ func c063(c *Ctx, r *Report, join *Fn, errVars map[types.Object]bool) {
 		k := r.Key("R-C06.3", val, "validator-exit", "")
 		if at["recorded"] {
 			r.Hold("R-C06.3", k, pos, true, "rejecting exit: the aggregated error is set")
+			return
+		}
+		if at["resolved"] && !at.HasPrefix("failed|") {
+			r.Hold("R-C06.3", k, pos, true, "every path to this exit either recorded an error or passed both CanAppend and Verify")
 			return
 		}
 		// accepting exit
